@@ -1205,11 +1205,13 @@ class MultiReader(IndexReader):
         crs = []
         doc_offsets = []
         for i, r in enumerate(self.readers):
-            if r.has_column(fieldname):
-                cr = r.column_reader(fieldname, column=column, reverse=reverse,
-                                     translate=translate)
-                crs.append(cr)
-                doc_offsets.append(self.doc_offsets[i])
+            # A sub-reader without a column file for this field still owns its
+            # range of document numbers (its column reader returns the default
+            # value for them), so every sub-reader must be included
+            cr = r.column_reader(fieldname, column=column, reverse=reverse,
+                                 translate=translate)
+            crs.append(cr)
+            doc_offsets.append(self.doc_offsets[i])
         return columns.MultiColumnReader(crs, doc_offsets)
 
     # Per doc methods
